@@ -1,0 +1,23 @@
+//go:build verif
+
+package kv
+
+import (
+	"github.com/go-kit/log"
+	"github.com/prometheus/client_golang/prometheus"
+)
+
+// VerifNewMultiClient builds a MultiClient from already constructed clients (first = primary).
+// Add-only verification hook (property C07): NewMultiClient takes the unexported kvclient type.
+func VerifNewMultiClient(cfg MultiConfig, names []string, clients []Client, logger log.Logger, reg prometheus.Registerer) *MultiClient {
+	kvs := make([]kvclient, len(clients))
+	for i := range clients {
+		kvs[i] = kvclient{client: clients[i], name: names[i]}
+	}
+	return NewMultiClient(cfg, kvs, logger, reg)
+}
+
+// VerifNewMetricsClient exposes the unexported metrics wrapper used by createClient.
+func VerifNewMetricsClient(backend string, c Client, reg prometheus.Registerer) Client {
+	return newMetricsClient(backend, c, reg)
+}
